@@ -21,7 +21,7 @@ func init() {
 			"which encode set each component writer uses (TAB-component); strconv never sees unvalidated text; exactly one bracket pair is stripped (FLOW-strconv, FLOW-brackets)",
 			"the IPv6 serializer prints the standard's pieces, separators and '::' for each of the 256 zero/non-zero patterns of the pieces (TAB-ipv6ser)",
 			"after reading the text the IPv6 parser fails / arranges the pieces around '::' / adds the brackets as the standard does, in each of its 45 end states (TAB-ipv6place)",
-		},
+		, "the Windows drive-letter quirk of the path state stands under url.scheme == file and an empty path as well as under the drive-letter test (OPT-drivequirk)"},
 		NotDecided:  []string{"per-character behaviour inside a state beyond these facts", "IPv4/IPv6 arithmetic, the hex text of a piece", "path shortening details and drive-letter quirks", "IDNA mapping"},
 		Assumptions: append([]string{"/verif/spec/basecopies.json, failpoints.json, sets.json are faithful transcriptions of the standard's snapshot"}, commonAssumptions...)})
 	describe(&PropertyDoc{ID: "C02",
@@ -31,7 +31,7 @@ func init() {
 			"base is never dereferenced when nil; url.query is non-nil wherever stored through; a parse returns a non-nil URL or a non-nil error (SM-base, SM-query, SM-result)",
 			"every index/slice expression, nullable-field dereference, type assertion, loop and library call with a panicking contract is discharged by a dominating fact, an idiom, or a reviewed invariant (PF-*)",
 			"a pointer or interface obtained together with an error or an ok flag is dereferenced only where the branch facts establish err == nil / ok, per incoming edge and through value/error phi pairs (PF-errnil)",
-		},
+		, "a reviewed index invariant that counts on obligations of another rule (the IPv6 piece index on the reading loop's thresholds) holds only while those are discharged; the lazily created parameter list is non-nil wherever a field of it is touched or a method called on it (PF-nil)"},
 		NotDecided:  []string{"stack/heap exhaustion", "panics inside dependencies on valid arguments", "the hand-proved invariants of /verif/tables/index.json (listed as assumptions)"},
 		Assumptions: commonAssumptions})
 	describe(&PropertyDoc{ID: "C03",
@@ -46,7 +46,7 @@ func init() {
 		Assumptions: commonAssumptions})
 	describe(&PropertyDoc{ID: "C05",
 		Explanation: "Setter footprints and guards, for every URL state and every value.",
-		Decides:     []string{"the components each setter's state-override run can change are exactly the standard's, and only the setter's states run (SM-footprint)", "host and port are committed only after their validation (SM-commit)", "sibling setters share their applicability guard (PAIR-guards)", "credentials are encoded with the userinfo set (TAB-component)"},
+		Decides:     []string{"the components each setter's state-override run can change are exactly the standard's, and only the setter's states run (SM-footprint)", "host and port are committed only after their validation (SM-commit)", "sibling setters share their applicability guard (PAIR-guards)", "credentials are encoded with the userinfo set (TAB-component)", "an opaque path is rewritten in place only by strings.TrimRight(segment, space) of that very segment: trailing U+0020 and nothing else (TAB-strip)"},
 		NotDecided:  []string{"the resulting values", "sequence-specific value behaviour (the facts hold in every URL state)"},
 		Assumptions: append([]string{"/verif/spec/setters.json transcribes the API setters of the standard"}, commonAssumptions...)})
 	describe(&PropertyDoc{ID: "C06",
@@ -66,7 +66,7 @@ func init() {
 		Assumptions: append([]string{"TAB-ipv6place: at the end of the reading loop the pieces from index pieceIdx on are still zero and 0 ≤ pieceIdx ≤ 8 (reviewed; the rule itself checks that compress is only ever set to the piece count or the one 'none' constant)"}, commonAssumptions...)})
 	describe(&PropertyDoc{ID: "C09",
 		Explanation: "Order and coverage of the domain pipeline.",
-		Decides:     []string{"percent-decoding precedes ToASCII; the forbidden-domain scan runs over the ToASCII result on every non-lax success path and before the IPv4 test (FLOW-hostpipe)", "the forbidden-domain set is at least the standard's (TAB-forbidden)", "every IDNA conversion goes through the module's lookup profile built with MapForLookup, and the wrapper's successes behind the conversion return what it produced  (FLOW-idna)"},
+		Decides:     []string{"percent-decoding precedes ToASCII; the forbidden-domain scan runs over the ToASCII result on every non-lax success path and before the IPv4 test (FLOW-hostpipe)", "the forbidden-domain set is at least the standard's (TAB-forbidden)", "every IDNA conversion goes through the module's lookup profile built with MapForLookup, and the wrapper's successes behind the conversion return what it produced  (FLOW-idna)", "the post-parse host hook is handed the ToASCII result and the pre-parse hook the host text as it came in (FLOW-hostpipe)"},
 		NotDecided:  []string{"UTS #46 behaviour, case independence, the localhost rule"},
 		Assumptions: commonAssumptions})
 	describe(&PropertyDoc{ID: "C10",
